@@ -22,7 +22,7 @@ VENV_PY = os.environ.get("SYMX_VENV_PY", "/venv/bin/python")
 
 class Case:
     def __init__(self, name, fn, params=None, replay=None, witness=None, bounds=None, stubs=(), assumptions=(),
-                 max_paths=200000, timeout_s=None, env=None, functions=()):
+                 max_paths=200000, timeout_s=None, env=None, functions=(), max_witness=None):
         self.name = name
         self.fn = fn
         self.params = params or {}
@@ -35,6 +35,7 @@ class Case:
         self.timeout_s = timeout_s
         self.env = env or {}
         self.functions = list(functions)
+        self.max_witness = max_witness
 
 
 def _run_case(args):
@@ -203,7 +204,10 @@ def main(argv=None):
                 replay_reqs.setdefault(ekey, []).append((req, o, c))
         if c.witness and r["witnesses"]:
             ws = r["witnesses"]
-            step = max(1, len(ws) // (40 if a.tier == "quick" else 200))
+            nmax = c.max_witness or (40 if a.tier == "quick" else 200)
+            if a.tier != "quick" and c.max_witness:
+                nmax = c.max_witness * 4
+            step = max(1, -(-len(ws) // nmax))
             for w in ws[::step]:
                 req = {"kind": "witness", "target": c.witness, "case": c.name, "params": _js(c.params), "inputs": w["inputs"],
                        "expected": w["outputs"]}
